@@ -674,7 +674,7 @@ def harness(ctx):
     exe, log = ctx.cc('h_bintree', [os.path.join(vlib.VERIF, 'harness/h_bintree.c'), R + '/librfn/util.c', R + '/librfn/string.c', R + '/librfn/posix/time_posix.c'],
                       ['-I' + R + '/librfn', '-pthread'])
     if not exe:
-        raise vlib.Infra('bintree harness does not compile against the repo: ' + log[-1500:])
+        raise vlib.Unbuildable('bintree harness does not compile against the repo: ' + log[-1500:])
     return exe
 
 
